@@ -49,6 +49,13 @@ func (t *Trace) Each(f func(i int, snapshot val.V, raw types.MalType) bool) {
 	}
 }
 
+// Reset forgets the effects recorded so far.
+func (t *Trace) Reset() {
+	t.mu.Lock()
+	t.Log, t.Raw = nil, nil
+	t.mu.Unlock()
+}
+
 func (t *Trace) Snapshot() []val.V {
 	t.mu.Lock()
 	defer t.mu.Unlock()
